@@ -297,6 +297,62 @@ def build(spec):
     m.fix_distributed_loads()
     return m
 
+def _cz(z):
+    re, im = float(z[0]), float(z[1])
+    return repr(re) + ('+' if im >= 0 or im != im else '-') + repr(abs(im)) + 'j'
+
+def to_argv(spec, transforms=None, with_loads=True):
+    """The command line that describes the same antenna as build(spec): objects, tapers, transformations (in the
+    given order, keys as the text `keytext` when present), scales, media, sources, impedance loads."""
+    a = ['-f', repr(float(spec['f']))]
+    for w in spec['wires']:
+        tg = [] if w.get('tag') is None else [str(int(w['tag']))]
+        if w['type'] == 'wire':
+            a.append('--wire=' + ','.join(tg + [str(w['nseg'])] + [repr(float(v)) for v in list(w['p1']) + list(w['p2'])] + [repr(float(w['r']))]))
+        elif w['type'] == 'arc':
+            a.append('--arc=' + ','.join(tg + [str(w['nseg'])] + [repr(float(w[k])) for k in ('radius', 'ang1', 'ang2', 'r')]))
+        else:
+            f = [repr(float(w[k])) for k in ('length', 'turnlen', 'r', 'rx1', 'ry1')]
+            if w.get('rx2') is not None: f += [repr(float(w['rx2'])), repr(float(w['ry2']))]
+            a.append('--helix=' + ','.join(tg + [str(w['nseg'])] + f))
+    for w in spec['wires']:
+        if w['type'] == 'wire' and w.get('taper'):
+            if w.get('tag') is None: raise ValueError('to_argv: taper needs a tag')
+            t = w['taper']; f = [str(int(w['tag'])), str(int(t[0]))]
+            if t[1] is not None or t[2] is not None: f.append(repr(float(t[1] or 0)))
+            if t[2] is not None: f.append(repr(float(t[2])))
+            a.append('--taper-wire=' + ','.join(f))
+    for t in (spec.get('transforms', []) if transforms is None else transforms):
+        key = t['keytext'] if 'keytext' in t else repr(float(t['key']))
+        a.append('--geo-%s=%s' % (t['op'], ','.join([key] + [repr(float(v)) for v in t['v']] + ([] if t.get('tag') is None else [str(int(t['tag']))]))))
+    for t in spec.get('scales', []):
+        a.append('--geo-scale=' + ','.join([repr(float(t['factor']))] + ([] if t.get('tag') is None else [str(int(t['tag']))])))
+    if spec.get('media') is not None:
+        if not spec['media']:
+            a.append('--medium=0,0,0')
+        else:
+            for md in spec['media']:
+                f = [repr(float(md['perm'])), repr(float(md['cond'])), repr(float(md.get('height', 0)))]
+                if md.get('coord') is not None: f.append(repr(float(md['coord'])))
+                a.append('--medium=' + ','.join(f))
+            md = spec['media'][0]
+            if md.get('boundary'): a.append('--boundary=' + md['boundary'])
+            if md.get('nradials'): a += ['--radial-count=%d' % md['nradials'], '--radial-radius=' + repr(float(md['radius']))]
+    for s in spec.get('sources', []):
+        a.append('--excitation-pulse=' + (str(s['pulse'] + 1) if s.get('tag') is None else '%d,%d' % (s['pulse'] + 1, s['tag'])))
+        a.append('--excitation-voltage=' + _cz(s['v']))
+    if not spec.get('sources'):
+        a.append('--excitation-pulse=1')
+    if with_loads:
+        n = 0
+        for l in spec.get('loads', []):
+            if l['kind'] != 'imp': raise ValueError('to_argv: only impedance loads')
+            n += 1
+            a.append('--load=' + _cz(l['z']))
+            for at in l['attach']:
+                a.append('--attach-load=%d,%d' % (n, at[0] + 1) + ('' if len(at) < 2 or at[1] is None else ',%d' % at[1]))
+    return a
+
 def add_sources(rng, spec, npulses, nsrc=None, grounded=()):
     """nsrc sources on distinct random pulses (absolute addressing)."""
     nsrc = nsrc or rng.choice([1, 1, 2, 3, 4])
